@@ -169,3 +169,85 @@ def boundary_values(w, n):
         b = 1 << (w * k)
         vs |= {b % M, (b - 1) % M, (b + 1) % M, (M - b) % M}
     return sorted(v % M for v in vs)
+
+
+def fmt_line(op, w, n, vals, sig):
+    toks = []
+    for v, s in zip(vals, sig):
+        if s == "L":
+            toks.append(tokV(v, w, n))
+        elif s == "R":
+            toks.append(tokL(v))
+        elif s == "Z":
+            toks.append(tokZ(v))
+        else:
+            toks.append(tokB(v))
+    return "%s %d %d %s" % (op, w, n, " ".join(toks))
+
+
+def std_gen(rng, tier, ops, configs, per, gen_z=None, gen_lists=None, grid=None, big_divisor=20):
+    """signature-driven generation: for every op x config, `grid` tuples from the boundary grid and
+    `per` boundary-biased tuples.  gen_z(rng, op, w, n, k) supplies the k-th integer argument;
+    gen_lists(rng, op, w, n, count) may supply related digit-list operands."""
+    out = []
+    for op, sig in ops.items():
+        nl = sum(1 for c in sig if c == "L")
+        for (w, n) in configs:
+            k = per if w * n <= 1100 else max(2, per // big_divisor)
+            g = (grid if grid is not None else max(4, per // 4)) if w * n <= 1100 else 2
+            bv = boundary_values(w, n)
+            for it in range(g + k):
+                if it < g:
+                    ls = [rng.choice(bv) for _ in range(nl)]
+                elif gen_lists is not None:
+                    ls = gen_lists(rng, op, w, n, nl)
+                elif nl >= 2:
+                    a, b = gen_pair(rng, w, n)
+                    ls = [a, b] + [gen_value(rng, w, n) for _ in range(nl - 2)]
+                else:
+                    ls = [gen_value(rng, w, n) for _ in range(nl)]
+                vals = []
+                li = zi = 0
+                for c in sig:
+                    if c == "L":
+                        vals.append(ls[li])
+                        li += 1
+                    elif c == "Z":
+                        vals.append(gen_z(rng, op, w, n, zi))
+                        zi += 1
+                    elif c == "B":
+                        vals.append(rng.chance(1, 2))
+                    else:
+                        raise ValueError(c)
+                out.append(fmt_line(op, w, n, vals, sig))
+    return out
+
+
+def exhaustive8(ops, gen_zs=None):
+    """all operand tuples at (8,1) for every op (thorough tier)"""
+    out = []
+    for op, sig in ops.items():
+        doms = []
+        for c in sig:
+            if c == "L":
+                doms.append(range(256))
+            elif c == "B":
+                doms.append((False, True))
+            elif c == "Z":
+                doms.append(gen_zs(op) if gen_zs else range(0, 20))
+        if len([c for c in sig if c == "L"]) > 2:
+            continue
+
+        def rec(i, cur):
+            if i == len(doms):
+                out.append(fmt_line(op, 8, 1, cur, sig))
+                return
+            for v in doms[i]:
+                rec(i + 1, cur + [v])
+        rec(0, [])
+    return out
+
+
+def parse_L(tok):
+    body = tok[2:]
+    return [int(x, 16) for x in body.split(",")] if body else []
